@@ -78,12 +78,7 @@ Theorem C12_written_response_unaltered :
    contains (wbody ws) TPL_OPEN = false) ->
   let x := serve et c path ae (sets ++ OWh s :: map wop_op ws) ret err in
   cm x = Some s /\ sup x = 0%nat /\ view x = (false, wbody ws).
-Proof.
-  intros et c path ae sets s ws ret err Hs Hr Hv Hb Hret Htpl.
-  destruct (should_buffer (tmode_of c path) (hs_fun sets [])) eqn:A.
-  - exact (written_buffered et c path ae sets s ws ret err Hs Hr Hv Hb Hret A (Htpl eq_refl)).
-  - exact (written_streamed et c path ae sets s ws ret err Hs Hr Hv Hb Hret A).
-Qed.
+Proof. exact written_response_unaltered. Qed.
 Print Assumptions C12_written_response_unaltered.
 
 Example C12_written_response_unaltered_nonvacuous :
@@ -99,6 +94,40 @@ Example C12_written_response_unaltered_nonvacuous :
   (* a handler that fails after writing, under errors visible *)
   (let x := serve (fun _ => []) c (bs "/x.html") true ([] ++ OWh 404 :: map wop_op [WWr (bs "custom")]) 0 true in
    cm x = Some 404 /\ view x = (false, bs "custom")).
+Proof. vm_compute. repeat split; reflexivity. Qed.
+
+(* A handler that starts with a Write or a Flush instead of WriteHeader: at every level of the
+   writer stack (net/http, gzip's filter writer, header's wrapper, templates' ResponseBuffer)
+   the first Write or Flush commits the header exactly as WriteHeader(200) does — the whole
+   request ends in the same state — for EVERY configuration, return value and continuation. *)
+Theorem C12_implicit_header :
+  forall et c path ae sets w ws ret err,
+  forallb set_ok sets = true ->
+  serve et c path ae (sets ++ map wop_op (w :: ws)) ret err =
+  serve et c path ae (sets ++ OWh 200 :: map wop_op (w :: ws)) ret err.
+Proof. exact serve_implicit_header. Qed.
+Print Assumptions C12_implicit_header.
+
+(* Hence the header is committed only once also for those handlers (in particular after a
+   Flush before the header): status 200, the chunks as written, no superfluous WriteHeader. *)
+Theorem C12_single_commit :
+  forall et c path ae sets w ws ret err,
+  forallb set_ok sets = true -> status_rule c path = None -> ret < 400 ->
+  (should_buffer (tmode_of c path) (hs_fun sets []) = true -> ret < 300 -> err = false ->
+   contains (wbody (w :: ws)) TPL_OPEN = false) ->
+  let x := serve et c path ae (sets ++ map wop_op (w :: ws)) ret err in
+  cm x = Some 200 /\ sup x = 0%nat /\ view x = (false, wbody (w :: ws)).
+Proof. exact implicit_response_unaltered. Qed.
+Print Assumptions C12_single_commit.
+
+Example C12_single_commit_nonvacuous :
+  let c := {| c_reqid := false; c_limits := false; c_log := true; c_rewrite := false; c_gzip := true; c_header := true;
+              c_errors := EDebug; c_status := None; c_mime := false; c_templates := true |} in
+  (* Flush before the header behind header + gzip + templates (buffering, then streaming) *)
+  (let x := serve (fun _ => []) c (bs "/x.html") true ([OSet K_XDEL (bs "gone")] ++ map wop_op [WFl; WWr (bs "hello")]) 0 false in
+   cm x = Some 200 /\ sup x = 0%nat /\ view x = (false, bs "hello") /\ hget (csnap x) K_XDEL = None) /\
+  (let x := serve (fun _ => []) c (bs "/x.txt") true ([] ++ map wop_op [WFl; WWr (bs "hello"); WFl]) 0 true in
+   cm x = Some 200 /\ sup x = 0%nat /\ view x = (false, bs "hello")).
 Proof. vm_compute. repeat split; reflexivity. Qed.
 
 (* request_id, limits and mime never change the response. *)
